@@ -810,6 +810,96 @@ fn check_script_case(rep: &mut Report, v: &Vocab, st: &mut SStats, name: &str, a
     );
 }
 
+/// Several redis.pcall invocations in ONE script against the same commands sent one after the other by a client: a script
+/// run is a sequence of ordinary commands, and each call means what its own arguments say - whatever an earlier call in the
+/// same run looked like (argument lists that differ only in where the boundaries between arguments fall, the same
+/// words under another command name, the same call repeated).
+fn multi_call_cases(rep: &mut Report) {
+    let w = |xs: &[&str]| -> Vec<Vec<u8>> { xs.iter().map(|x| s(x)).collect() };
+    let groups: Vec<Vec<Vec<Vec<u8>>>> = vec![
+        vec![w(&["RPUSH", "q", "a b"]), w(&["RPUSH", "q", "a", "b"]), w(&["LRANGE", "q", "0", "-1"])],
+        vec![w(&["RPUSH", "q", "a", "b"]), w(&["RPUSH", "q", "a b"]), w(&["LLEN", "q"])],
+        vec![w(&["SADD", "s", "m n"]), w(&["SADD", "s", "m", "n"]), w(&["SCARD", "s"])],
+        vec![w(&["SET", "k", "v x"]), w(&["SET", "k", "v", "x"]), w(&["GET", "k"])],
+        vec![w(&["DEL", "a b"]), w(&["SET", "a", "1"]), w(&["SET", "b", "2"]), w(&["DEL", "a", "b"]), w(&["EXISTS", "a", "b"])],
+        vec![w(&["HSET", "h", "f", "v w"]), w(&["HSET", "h", "f", "v", "w"]), w(&["HGETALL", "h"])],
+        vec![w(&["APPEND", "k", "x y"]), w(&["APPEND", "k x", "y"]), w(&["GET", "k"]), w(&["GET", "k x"])],
+        vec![w(&["INCR", "n"]), w(&["INCR", "n"]), w(&["INCRBY", "n", "5"]), w(&["INCRBY", "n", "5"]), w(&["GET", "n"])],
+        vec![w(&["LPUSH", "l", "1 2"]), w(&["LPUSH", "l", "1", "2"]), w(&["RPOP", "l"]), w(&["RPOP", "l"]), w(&["RPOP", "l"])],
+        vec![w(&["MSET", "a b", "c"]), w(&["MSET", "a", "b c"]), w(&["MGET", "a b", "a"])],
+        vec![w(&["ZADD", "z", "1", "m 2 n"]), w(&["ZADD", "z", "1", "m", "2", "n"]), w(&["ZCARD", "z"])],
+        vec![w(&["SET", "k", "1"]), w(&["GET", "k"]), w(&["SET", "k", "2"]), w(&["GET", "k"])],
+    ];
+    for (gi, cmds) in groups.iter().enumerate() {
+        for mode in ["call", "pcall"] {
+            rep.evaluations += 1;
+            rep.count("multi_call_scripts");
+            let (mut a, mut b) = (make_state(0), make_state(0));
+            let mut direct: Vec<RespValue> = vec![];
+            let mut panicked = false;
+            for c in cmds {
+                match guard(|| run_frame(&mut a, c)) {
+                    Ok(r) => direct.push(r),
+                    Err(_) => {
+                        panicked = true;
+                        break;
+                    }
+                }
+            }
+            if panicked {
+                continue;
+            }
+            // with redis.call a failing command ends the script: compare up to the first error; pcall returns errors as values
+            let mut idx = 1;
+            let mut calls = vec![];
+            let mut argv_all: Vec<Vec<u8>> = vec![];
+            for c in cmds {
+                calls.push(format!("redis.pcall({})", (0..c.len()).map(|j| format!("ARGV[{}]", idx + j)).collect::<Vec<_>>().join(",")));
+                idx += c.len();
+                argv_all.extend(c.iter().cloned());
+            }
+            let _ = mode;
+            let script = format!("local r = {{}}; {} return r", calls.iter().enumerate().map(|(i, c)| format!("local v{} = {}; if type(v{}) == 'table' and v{}.err then r[{}] = 'ERR:' .. v{}.err elseif type(v{}) == 'table' and v{}.ok then r[{}] = 'OK:' .. v{}.ok elseif v{} == false then r[{}] = 'NIL' else r[{}] = v{} end;", i, c, i, i, i + 1, i, i, i, i + 1, i, i, i + 1, i + 1, i)).collect::<Vec<_>>().join(" "));
+            let mut eval = vec![s("EVAL"), s(&script), s("0")];
+            eval.extend(argv_all);
+            let scripted = match guard(|| run_frame(&mut b, &eval)) {
+                Ok(r) => r,
+                Err(_) => continue,
+            };
+            // expected rendering of the direct replies under the same encoding
+            let enc = |r: &RespValue| -> RespValue {
+                match r {
+                    RespValue::Error(e) => RespValue::BulkString(Some(format!("ERR:{}", e).into_bytes())),
+                    RespValue::SimpleString(t) => RespValue::BulkString(Some(format!("OK:{}", t).into_bytes())),
+                    RespValue::BulkString(None) | RespValue::Array(None) => RespValue::BulkString(Some(b"NIL".to_vec())),
+                    other => convert(other),
+                }
+            };
+            let want: Vec<RespValue> = direct.iter().map(enc).collect();
+            let got: Vec<RespValue> = match &scripted {
+                RespValue::Array(Some(v)) => v.clone(),
+                other => vec![other.clone()],
+            };
+            let same_reply = want.len() == got.len()
+                && want.iter().zip(&got).all(|(x, y)| match (x, y) {
+                    (RespValue::BulkString(Some(p)), RespValue::BulkString(Some(q))) if p.starts_with(b"ERR:") && q.starts_with(b"ERR:") => true,
+                    (RespValue::Array(Some(p)), RespValue::Array(Some(q))) => multiset(&RespValue::Array(Some(p.clone()))) == multiset(&RespValue::Array(Some(q.clone()))),
+                    _ => x == y,
+                });
+            let (ka, kb) = (snapshot(&mut a), snapshot(&mut b));
+            rep.distinct(&("multi-call", gi, mode));
+            if !same_reply || ka != kb {
+                let first = String::from_utf8_lossy(&cmds[0][0]).to_string();
+                rep.violation(
+                    format!("C16|script|{}|calls-of-one-script-run-interfere|{}", first, if !same_reply { "reply-differs" } else { "keyspace-differs" }),
+                    format!("commands {:?}: sent one by one -> {:?}, keyspace {:?}; as redis.pcall calls of one script -> {:?}, keyspace {:?}", cmds.iter().map(|c| c.iter().map(|x| lossy(x)).collect::<Vec<_>>()).collect::<Vec<_>>(), want, ka, got, kb),
+                    json!({"multi_call": cmds.iter().map(|c| c.iter().map(|x| lossy(x)).collect::<Vec<_>>()).collect::<Vec<_>>()}),
+                );
+            }
+        }
+    }
+}
+
 pub fn script_leg(args: &Args) {
     let mut rep = Report::new("C16", "script");
     let v = scrape(args, &mut rep);
@@ -873,6 +963,9 @@ pub fn script_leg(args: &Args) {
     let lua_known: BTreeSet<&String> =
         names.iter().copied().filter(|n| !matches!(probe(n), RespValue::Error(ref e) if e.contains("Unknown Redis command"))).collect();
     rep.max("names_in_scope", names.len() as u64);
+    if args.shard == 0 {
+        multi_call_cases(&mut rep);
+    }
     rep.max("names_known_to_redis_call", lua_known.len() as u64);
     rep.note(format!("names the redis.call translator knows: {:?}; excluded as not script-invocable: {:?}", lua_known, NOSCRIPT));
     let mut rng = args.rng(162);
